@@ -77,17 +77,37 @@ def gmtPeriod : Nat := 43200
 
 def isModifier (c : Char) : Bool := (FT.ofChar c).isSome
 
-/-- `_split_timestamp_format_once`: (part before the first modifier, the modifier, the text after it) -/
+/-- first position where a `'%'` is followed by one of the seven modifier letters: (part before it, the modifier, the
+    text after it) — what `_split_timestamp_format_once` amounts to (`splitOnceCpp_eq` in `SplitProofs.lean`) -/
 def splitOnce (fmt : List Char) : Option (List Char × FT × List Char) :=
   match findAt (fun r => match r with | c :: _ => isModifier c | [] => false) fmt with
   | some (p1, c :: rest) => (FT.ofChar c).map (fun ft => (p1, ft, rest))
   | _ => none
 
+/-- `timestamp_format.find ("%c")` -/
+def findPct (c : Char) (fmt : List Char) : Option Nat := (findAt (startsWith [c]) fmt).map (fun ab => ab.1.length)
+
+/-- `found_format_modifiers.emplace (search, modifier)` into a `std::map` keyed by the index, then `begin()`: the
+    entry with the smallest index (for equal indexes `emplace` keeps the one inserted first) -/
+def minEntry (found : List (Nat × FT)) : Option (Nat × FT) :=
+  found.foldl (fun acc e => match acc with
+    | none => some e
+    | some a => if e.1 < a.1 then some e else some a) none
+
+/-- `_split_timestamp_format_once` as written: search each of the seven modifiers in the order of the array, take the
+    hit with the lowest index, cut there -/
+def splitOnceCpp (fmt : List Char) : Option (List Char × FT × List Char) :=
+  let found : List (Nat × FT) :=
+    [FT.H, FT.M, FT.S, FT.I, FT.k, FT.l, FT.s].filterMap (fun ft => (findPct ft.char fmt).map (fun i => (i, ft)))
+  match minEntry found with
+  | none => none
+  | some (i, ft) => some (fmt.take i, ft, fmt.drop (i + 2))
+
 /-- `_populate_initial_parts` (fuel = number of loop iterations; `fmt.length + 1` always suffices) -/
 def populatePartsF : Nat → List Char → List (List Char)
   | 0, _ => []
   | f + 1, fmt =>
-    match splitOnce fmt with
+    match splitOnceCpp fmt with
     | none => if fmt = [] then [] else [fmt]
     | some (p1, ft, rest) => (if p1 = [] then [] else [p1]) ++ [['%', ft.char]] ++ populatePartsF f rest
 
